@@ -1,10 +1,10 @@
 #!/bin/bash
 # sweep.sh <seed> [tier]: run every check once, print exit code and wall time
-cd /verif
+cd "$(dirname "$0")/.."
 seed=$1; tier=${2:-quick}
 for c in C01 C02 C03 C04 C05 C06 C07 C08 C09 C10 C11 C12 C13 C14 C15 C16 C17 C18 C19 C20; do
   t0=$(date +%s.%N)
-  VERIF_SEED=$seed python3-vt checks/$c.py --tier $tier > /dev/shm/verif-sweep-$seed-$c.log 2>&1
+  VERIF_EVIDENCE_DIR=${VERIF_EVIDENCE_DIR:-/dev/shm/verif-sweep-evidence} VERIF_SEED=$seed python3-vt checks/$c.py --tier $tier > /dev/shm/verif-sweep-$seed-$c.log 2>&1
   rc=$?
   t1=$(date +%s.%N)
   printf "%s seed=%s rc=%d wall=%.0fs %s\n" $c $seed $rc $(echo "$t1 - $t0" | bc) "$(grep -c '^VIOLATION' /dev/shm/verif-sweep-$seed-$c.log) violations; $(grep -o 'inconclusive.*' /dev/shm/verif-sweep-$seed-$c.log | head -1 | cut -c1-120)"
